@@ -15,9 +15,12 @@ import shutil
 import sys
 import tempfile
 
-from .common import BUILD
+import hashlib
 
-TABDIR = os.path.join(BUILD, "tables")
+from .common import BUILD, REPO
+
+# one cache per repository root so that scratch worktrees (XV_REPO=...) never thrash /repo's cache
+TABDIR = os.path.join(BUILD, "tables" if REPO == "/repo" else "tables-" + hashlib.sha256(REPO.encode()).hexdigest()[:10])
 
 
 def _load_as(modname, path):
